@@ -1344,3 +1344,59 @@ macro_rules! nothing_after_the_notification {
 }
 nothing_after_the_notification!(c15_nothing_can_follow_the_result, Ok(vec![true]));
 nothing_after_the_notification!(c15_nothing_can_follow_the_error, Err(polytune::Error::EmptyMsg));
+
+// ------------------------------------------------------------------------------------------ constants from an unknown party (C14)
+
+fn two_party_state(which: u8) -> PolicyStateKind<NoClient> {
+    let mut s = match which {
+        0 => state_validated(),
+        1 => state_sending_consts(),
+        _ => state_sending_consts_completed(),
+    };
+    match &mut s {
+        PolicyStateKind::Validated { policy, .. } | PolicyStateKind::SendingConsts { policy, .. } | PolicyStateKind::SendingConstsCompleted { policy, .. } => {
+            policy.participants = vec![url::Url::parse("a:b").expect("parses"), url::Url::parse("a:c").expect("parses")];
+        }
+        _ => {}
+    }
+    s
+}
+
+/// C14 - constants "from" a party index outside the policy's participants, in the states that
+/// accept constants: answered with an error, nothing stored, no compilation triggered, state
+/// kept, machine keeps running. An index inside is accepted (counterpart).
+macro_rules! consts_sender_index {
+    ($name:ident, $which:expr) => {
+        #[kani::proof]
+        #[kani::unwind(5)]
+        #[kani::stub(std::fmt::format, no_format)]
+        #[kani::stub(std::collections::hash_map::RandomState::new, env_random_state)]
+        fn $name() {
+            let from: usize = kani::any();
+            let st = EnvState::scheduled(two_party_state($which), false);
+            let before = std::mem::discriminant(&st.state_kind);
+            reset_answers();
+            let flow = seg_sc_consts(st, fake_consts_request(from), open_ret());
+            match flow {
+                ControlFlow::Continue(st) => {
+                    let (what, n) = answer(CONSTS, false);
+                    assert!(n == 1, "C14:consts:answered-exactly-once");
+                    if from >= 2 {
+                        assert!(what != OK && what != NONE, "C14:consts:constants-from-an-unknown-party-are-answered-with-an-error");
+                        assert!(st.insert_consts_calls == 0 && st.check_consts_calls == 0, "C14:consts:constants-from-an-unknown-party-are-not-stored-and-trigger-nothing");
+                        assert!(std::mem::discriminant(&st.state_kind) == before, "C14:consts:constants-from-an-unknown-party-keep-the-state");
+                    } else {
+                        assert!(what == OK && st.insert_consts_calls == 1, "C14:consts:constants-from-a-participant-are-accepted");
+                    }
+                    kani::cover!(from >= 2, "unknown_party_reachable");
+                    kani::cover!(from < 2, "participant_reachable");
+                    std::mem::forget(st);
+                }
+                ControlFlow::Break(()) => assert!(false, "C14:consts:does-not-stop-the-state-machine"),
+            }
+        }
+    };
+}
+consts_sender_index!(c14_consts_sender_index_in_validated, 0);
+consts_sender_index!(c14_consts_sender_index_in_sending_consts, 1);
+consts_sender_index!(c14_consts_sender_index_in_sending_consts_completed, 2);
